@@ -8,6 +8,7 @@ CONSTANTS
     Modes = {"trusted", "user", "all"}
     RootChoices = {TRUE, FALSE}
     MaxFetched = 2
+    MaxReports = 2
     StatOnlyEmpty = TRUE
     RealWins = TRUE
     LandmarkHiding = "root"
